@@ -104,10 +104,6 @@ func (a *c02) anchors() bool {
 	return true
 }
 
-func (a *c02) isConst(e ast.Expr, o types.Object) bool {
-	return objOf(a.info, e) == o
-}
-
 // isSegPred: repo function (Point, Point, Point) bool.
 func (a *c02) isSegPred(f *types.Func) bool {
 	if f == nil || a.c.P.Decl(f) == nil {
@@ -126,248 +122,6 @@ func (a *c02) isSegPred(f *types.Func) bool {
 	return ok && b.Kind() == types.Bool
 }
 
-func (a *c02) r1r2classifier() {
-	c := a.c
-	fd := c.P.Decl(a.classify)
-	name := c.P.FuncName(a.classify)
-	params := paramVars(a.info, fd.Type)
-	sc := newFnScope(a.info, fd.Body)
-	pt, pg := params[0], params[1]
-	// the ring loop
-	var ringLoop *Loop
-	for _, st := range fd.Body.List {
-		if l := sc.loopOf(st); l != nil && l.Hi.Of != nil && objOf(a.info, l.Hi.Of) == pg {
-			ringLoop = l
-		}
-	}
-	if ringLoop == nil || !sc.fullRange(ringLoop, &ast.Ident{NamePos: token.NoPos, Name: pg.Name()}) && !(ringLoop.Lo.K == 0 && ringLoop.Hi.K == 0) {
-		c.Unk("C02.R1", name, fd.Pos(), "loop over all rings of the polygon not found")
-		return
-	}
-	isRing := func(e ast.Expr) bool {
-		e = unparen(e)
-		if ringLoop.Val != nil && objOf(a.info, e) == ringLoop.Val {
-			return true
-		}
-		if ix, ok := e.(*ast.IndexExpr); ok && objOf(a.info, ix.X) == pg && ringLoop.Idx != nil && objOf(a.info, ix.Index) == ringLoop.Idx {
-			return true
-		}
-		return false
-	}
-	var ringExpr ast.Expr
-	if ringLoop.Val != nil {
-		ringExpr = &ast.Ident{Name: ringLoop.Val.Name()}
-	}
-	// the status variable: named result or returned local
-	var status types.Object
-	if rv := resultVars(a.info, fd.Type); len(rv) == 1 && rv[0] != nil {
-		status = rv[0]
-	}
-	// classify calls to segment predicates
-	type use struct {
-		f    *types.Func
-		call *ast.CallExpr
-		fam  segFamily
-	}
-	var uses []use
-	bad := ""
-	var badPos token.Pos
-	setBad := func(pos token.Pos, m string) {
-		if bad == "" {
-			bad, badPos = m, pos
-		}
-	}
-	roles := map[*types.Func]string{}
-	r2bad := ""
-	var r2pos token.Pos
-	setR2 := func(pos token.Pos, m string) {
-		if r2bad == "" {
-			r2bad, r2pos = m, pos
-		}
-	}
-	ast.Inspect(ringLoop.Body, func(n ast.Node) bool {
-		call, ok := n.(*ast.CallExpr)
-		if !ok {
-			return true
-		}
-		f := callee(a.info, call)
-		if !a.isSegPred(f) {
-			return true
-		}
-		if objOf(a.info, call.Args[0]) != pt {
-			setBad(call.Pos(), "segment predicate is not applied to the query point")
-			return true
-		}
-		i1 := elemIndex(a.info, sc, call.Args[1], isRing)
-		i2 := elemIndex(a.info, sc, call.Args[2], isRing)
-		if i1 == nil || i2 == nil {
-			setBad(call.Pos(), "segment endpoints `"+src(call.Args[1])+"`, `"+src(call.Args[2])+"` are not vertices of the current ring")
-			return true
-		}
-		loops, unknown := loopsAround(sc, ringLoop.Body, call)
-		if unknown != nil {
-			setBad(unknown.Pos(), "segment loop not recognised as a counting loop")
-			return true
-		}
-		vOf := ringExpr
-		if vOf == nil {
-			vOf = unparen(call.Args[1]).(*ast.IndexExpr).X
-		}
-		fam, why := pairFamily(a.info, sc, loops, i1, i2, vOf)
-		if why != "" {
-			setBad(call.Pos(), why)
-			return true
-		}
-		fam.Node = call
-		// ancestors: the call must be the whole condition of an if; other enclosing
-		// ifs are allowed only for the wrap pair (first != last guard)
-		path := enclosing(ringLoop.Body, call)
-		var ownIf *ast.IfStmt
-		for k := len(path) - 1; k >= 0; k-- {
-			if is, ok := path[k].(*ast.IfStmt); ok {
-				if ownIf == nil && unparen(is.Cond) == ast.Expr(call) {
-					ownIf = is
-					continue
-				}
-				if ownIf != nil && containsNode(is.Body, ownIf) {
-					if fam.Wrap && a.isFirstNeLast(is.Cond, isRing, sc) {
-						continue
-					}
-					setBad(is.Pos(), "segment test is conditional on `"+src(is.Cond)+"`: some segments may be skipped")
-				} else if ownIf != nil {
-					setBad(is.Pos(), "segment test sits in the else-branch of `"+src(is.Cond)+"`")
-				}
-			}
-		}
-		if ownIf == nil {
-			setBad(call.Pos(), "result of the segment predicate is not tested directly by an if")
-			return true
-		}
-		// role by what the true branch does
-		role := ""
-		if len(ownIf.Body.List) == 1 && ownIf.Else == nil {
-			switch s := ownIf.Body.List[0].(type) {
-			case *ast.ReturnStmt:
-				if len(s.Results) == 1 && a.isConst(s.Results[0], a.onEdge) {
-					role = "onseg"
-				}
-			case *ast.AssignStmt:
-				if len(s.Lhs) == 1 && len(s.Rhs) == 1 && s.Tok == token.ASSIGN {
-					if tv := objOf(a.info, s.Lhs[0]); tv != nil && a.isToggle(s.Rhs[0], tv) {
-						role = "ray"
-						if status == nil {
-							status = tv
-						} else if status != tv {
-							setR2(s.Pos(), "crossings toggle `"+tv.Name()+"`, not the returned status")
-						}
-					}
-				}
-			}
-		}
-		if role == "" {
-			setR2(ownIf.Pos(), "true branch of `"+src(call)+"` neither returns OnEdge nor toggles the status exactly once")
-			return true
-		}
-		if prev, ok := roles[f]; ok && prev != role {
-			setR2(call.Pos(), "predicate used in two roles")
-		}
-		roles[f] = role
-		uses = append(uses, use{f, call, fam})
-		return true
-	})
-	for f, r := range roles {
-		if r == "onseg" {
-			a.onSeg = f
-		} else {
-			a.ray = f
-		}
-	}
-	if bad != "" {
-		c.Bad("C02.R1", name, badPos, "%s", bad)
-	} else {
-		for _, role := range []string{"onseg", "ray"} {
-			var fams []segFamily
-			for _, u := range uses {
-				if roles[u.f] == role {
-					fams = append(fams, u.fam)
-				}
-			}
-			cons := name + "#" + role
-			if len(fams) == 0 {
-				c.Bad("C02.R1", cons, fd.Pos(), "no %s test over the ring's segments", role)
-				continue
-			}
-			vOf := ringExpr
-			if vOf == nil {
-				vOf = unparen(fams[0].Node.(*ast.CallExpr).Args[1]).(*ast.IndexExpr).X
-			}
-			if msg := coversChain(a.info, fams, sc.canon(vOf)); msg != "" {
-				c.Bad("C02.R1", cons, fams[0].Node.Pos(), "%s", msg)
-			} else if hasWrap(fams) != 1 {
-				c.Bad("C02.R1", cons, fams[0].Node.Pos(), "the closing segment (last vertex → first vertex) is tested %d times, want once (unclosed rings have an implicit closing segment)", hasWrap(fams))
-			} else {
-				c.OK("C02.R1", cons, fams[0].Node.Pos(), "closed ring: chain 0..len-2 plus closing pair")
-			}
-		}
-	}
-	// R2 (classifier part): skips and final result
-	ast.Inspect(ringLoop.Body, func(n ast.Node) bool {
-		is, ok := n.(*ast.IfStmt)
-		if !ok {
-			return true
-		}
-		hasCont := false
-		for _, s := range is.Body.List {
-			if b, ok := s.(*ast.BranchStmt); ok && (b.Tok == token.CONTINUE || b.Tok == token.BREAK) {
-				hasCont = true
-				if b.Tok == token.BREAK {
-					setR2(b.Pos(), "break out of the ring loop skips the remaining rings")
-				}
-			}
-		}
-		if !hasCont {
-			return true
-		}
-		// allowed: len(ring) < 3 (or <= 2), or the pre-filter (checked by R3)
-		if a.isShortRing(is.Cond, isRing, sc) || a.prefilterCall(is.Cond) != nil {
-			return true
-		}
-		setR2(is.Pos(), "ring skipped on `"+src(is.Cond)+"` (only len<3 and the box pre-filter may skip a ring)")
-		return true
-	})
-	// every return: OnEdge const (from onseg) or the status variable
-	ast.Inspect(fd.Body, func(n ast.Node) bool {
-		if r, ok := n.(*ast.ReturnStmt); ok {
-			if len(r.Results) == 0 {
-				if rv := resultVars(a.info, fd.Type); len(rv) != 1 || rv[0] != status {
-					setR2(r.Pos(), "bare return does not return the toggled status")
-				}
-				return true
-			}
-			if len(r.Results) == 1 && (a.isConst(r.Results[0], a.onEdge) || objOf(a.info, r.Results[0]) == status) {
-				return true
-			}
-			setR2(r.Pos(), "returns `"+src(r)+"`, neither OnEdge nor the toggled status")
-		}
-		return true
-	})
-	if status != nil {
-		// status starts as Outside: named result (zero = Outside, iota 0) or explicit init
-		if !a.startsOutside(fd, sc, status) {
-			setR2(fd.Pos(), "status `"+status.Name()+"` does not start as Outside")
-		}
-	} else {
-		setR2(fd.Pos(), "no toggled status variable")
-	}
-	if r2bad != "" {
-		c.Bad("C02.R2", name, r2pos, "%s", r2bad)
-	} else {
-		c.OK("C02.R2", name, fd.Pos(), "OnEdge returned at once, crossings toggle `%s`, rings skipped only when short or outside their box", status.Name())
-	}
-	// invert(): Outside→Inside, otherwise→Outside
-	a.checkInvert()
-}
-
 func containsNode(root ast.Node, n ast.Node) bool {
 	found := false
 	ast.Inspect(root, func(m ast.Node) bool {
@@ -379,53 +133,7 @@ func containsNode(root ast.Node, n ast.Node) bool {
 	return found
 }
 
-// isToggle: e is v.invert() (a WithinStatus method) or an inline toggle.
-func (a *c02) isToggle(e ast.Expr, v types.Object) bool {
-	call, ok := unparen(e).(*ast.CallExpr)
-	if !ok || len(call.Args) != 0 {
-		return false
-	}
-	sel, ok := unparen(call.Fun).(*ast.SelectorExpr)
-	if !ok || objOf(a.info, sel.X) != v {
-		return false
-	}
-	f := callee(a.info, call)
-	if f == nil || a.c.P.Decl(f) == nil {
-		return false
-	}
-	return a.invertOK(f) == ""
-}
-
 var c02invertMemo = map[*types.Func]string{}
-
-// invertOK evaluates the toggle method in the order-domain interpreter on the
-// three status constants.
-func (a *c02) invertOK(f *types.Func) string {
-	if r, ok := c02invertMemo[f]; ok {
-		return r
-	}
-	it := &oInterp{p: a.c.P, maxDepth: 2}
-	val := func(o types.Object) int64 {
-		k, _ := constInt64Obj(o)
-		return k
-	}
-	res := ""
-	for _, tc := range []struct{ in, want types.Object }{{a.outside, a.inside}, {a.inside, a.outside}} {
-		// the frame needs the package constants: they are folded by go/types, so eval() sees them as oInt
-		out, why := it.Call(f, oInt(val(tc.in)), nil, 0)
-		a.c.Evals(1)
-		if why != "" {
-			res = "toggle outside the fragment: " + why
-			break
-		}
-		if got, ok := out[0].(oInt); !ok || int64(got) != val(tc.want) {
-			res = fmt.Sprintf("toggle maps %s to %s, want %s", tc.in.Name(), showVal(out[0]), tc.want.Name())
-			break
-		}
-	}
-	c02invertMemo[f] = res
-	return res
-}
 
 func constInt64Obj(o types.Object) (int64, bool) {
 	cst, ok := o.(*types.Const)
@@ -433,67 +141,6 @@ func constInt64Obj(o types.Object) (int64, bool) {
 		return 0, false
 	}
 	return constInt64(cst)
-}
-
-func (a *c02) checkInvert() {
-	m := a.c.P.Method("geom", "WithinStatus", "invert")
-	if m == nil {
-		return // toggles were verified at their use sites through isToggle
-	}
-	name := a.c.P.FuncName(m)
-	if msg := a.invertOK(m); msg != "" {
-		a.c.Bad("C02.R2", name, a.c.P.Decl(m).Pos(), "%s", msg)
-	} else {
-		a.c.OK("C02.R2", name, a.c.P.Decl(m).Pos(), "Outside↔Inside")
-	}
-}
-
-// isFirstNeLast: cond establishes ring[len-1] != ring[0].
-func (a *c02) isFirstNeLast(cond ast.Expr, isRing func(ast.Expr) bool, sc *fnScope) bool {
-	e := unparen(cond)
-	neg := false
-	if u, ok := e.(*ast.UnaryExpr); ok && u.Op == token.NOT {
-		neg = true
-		e = unparen(u.X)
-	}
-	var x, y ast.Expr
-	switch v := e.(type) {
-	case *ast.CallExpr: // !last.Equals(first)
-		sel, ok := unparen(v.Fun).(*ast.SelectorExpr)
-		if !ok || !neg || len(v.Args) != 1 || sel.Sel.Name != "Equals" {
-			return false
-		}
-		x, y = sel.X, v.Args[0]
-	case *ast.BinaryExpr:
-		if v.Op != token.NEQ || neg {
-			return false
-		}
-		x, y = v.X, v.Y
-	default:
-		return false
-	}
-	ix, iy := elemIndex(a.info, sc, x, isRing), elemIndex(a.info, sc, y, isRing)
-	if ix == nil || iy == nil {
-		return false
-	}
-	ax, ay := sc.aff(ix), sc.aff(iy)
-	last := func(f Aff) bool { return f.ok && f.Of != nil && f.K == -1 && isRing(f.Of) }
-	first := func(f Aff) bool { return f.ok && f.Of == nil && f.K == 0 }
-	return (last(ax) && first(ay)) || (first(ax) && last(ay))
-}
-
-// isShortRing: cond is len(ring) < 3 / <= 2 (exactly "fewer than three vertices").
-func (a *c02) isShortRing(cond ast.Expr, isRing func(ast.Expr) bool, sc *fnScope) bool {
-	b, ok := unparen(cond).(*ast.BinaryExpr)
-	if !ok {
-		return false
-	}
-	la := lenArg(a.info, b.X)
-	k, kok := constInt(a.info, b.Y)
-	if la == nil || !kok || !isRing(la) {
-		return false
-	}
-	return (b.Op == token.LSS && k == 3) || (b.Op == token.LEQ && k == 2)
 }
 
 // prefilterCall: cond is !B.Overlaps(box-of-point); returns the call.
@@ -513,250 +160,9 @@ func (a *c02) prefilterCall(cond ast.Expr) *ast.CallExpr {
 	return call
 }
 
-func (a *c02) startsOutside(fd *ast.FuncDecl, sc *fnScope, status types.Object) bool {
-	ov, _ := constInt64Obj(a.outside)
-	for _, rv := range resultVars(a.info, fd.Type) {
-		if rv == status {
-			// zero value; any assignment other than toggles must be Outside
-			if ov != 0 {
-				return false
-			}
-		}
-	}
-	for _, d := range sc.defs[status] {
-		if d == nil {
-			continue
-		}
-		if a.isConst(d, a.outside) {
-			continue
-		}
-		if call, ok := unparen(d).(*ast.CallExpr); ok && a.isToggle(call, status) {
-			continue
-		}
-		return false
-	}
-	return true
-}
-
 // ---------------------------------------------------------------- R2 polygonal
 
-func (a *c02) r2polygonal() {
-	c := a.c
-	fd := c.P.Decl(a.polyal)
-	name := c.P.FuncName(a.polyal)
-	params := paramVars(a.info, fd.Type)
-	sc := newFnScope(a.info, fd.Body)
-	pt, pg := params[0], params[1]
-	bad := ""
-	var pos token.Pos = fd.Pos()
-	set := func(p token.Pos, m string) {
-		if bad == "" {
-			bad, pos = m, p
-		}
-	}
-	var loop *ast.RangeStmt
-	for _, st := range fd.Body.List {
-		if rs, ok := st.(*ast.RangeStmt); ok {
-			// range pg.Polygons()
-			if call, ok := unparen(rs.X).(*ast.CallExpr); ok && len(call.Args) == 0 {
-				if sel, ok := unparen(call.Fun).(*ast.SelectorExpr); ok && sel.Sel.Name == "Polygons" && objOf(a.info, sel.X) == pg {
-					loop = rs
-				}
-			}
-		}
-	}
-	if loop == nil || loop.Value == nil {
-		c.Unk("C02.R2", name, fd.Pos(), "loop over all member polygons (range pg.Polygons()) not found")
-		return
-	}
-	brk, cont, _ := earlyExits(loop.Body)
-	if len(brk)+len(cont) > 0 {
-		set(loop.Pos(), "member loop has break/continue: a member polygon may be skipped")
-	}
-	poly := objOf(a.info, loop.Value)
-	var status types.Object
-	if rv := resultVars(a.info, fd.Type); len(rv) == 1 && rv[0] != nil {
-		status = rv[0]
-	}
-	// temp := classify(pt, poly, bounds-of-poly)
-	var temp types.Object
-	ast.Inspect(loop.Body, func(n ast.Node) bool {
-		as, ok := n.(*ast.AssignStmt)
-		if !ok || len(as.Rhs) != 1 || len(as.Lhs) != 1 {
-			return true
-		}
-		call, ok := unparen(as.Rhs[0]).(*ast.CallExpr)
-		if !ok || callee(a.info, call) != a.classify {
-			return true
-		}
-		temp = objOf(a.info, as.Lhs[0])
-		if objOf(a.info, call.Args[0]) != pt || objOf(a.info, call.Args[1]) != poly {
-			set(call.Pos(), "classifier is not applied to (query point, current member polygon)")
-		}
-		if !a.boundsOf(sc, call.Args[2], poly) {
-			set(call.Pos(), "third argument `"+src(call.Args[2])+"` is not the ring bounds of the same polygon")
-		}
-		return true
-	})
-	if temp == nil {
-		c.Unk("C02.R2", name, fd.Pos(), "classifier call not found in the member loop")
-		return
-	}
-	// walk the loop body with the order-domain idea by hand: three outcomes of temp
-	seenEdge, seenToggle := false, false
-	ast.Inspect(loop.Body, func(n ast.Node) bool {
-		is, ok := n.(*ast.IfStmt)
-		if !ok {
-			return true
-		}
-		b, ok := unparen(is.Cond).(*ast.BinaryExpr)
-		if !ok || b.Op != token.EQL || objOf(a.info, b.X) != temp {
-			return true
-		}
-		switch {
-		case a.isConst(b.Y, a.onEdge):
-			if len(is.Body.List) == 1 {
-				if r, ok := is.Body.List[0].(*ast.ReturnStmt); ok && len(r.Results) == 1 && (objOf(a.info, r.Results[0]) == temp || a.isConst(r.Results[0], a.onEdge)) {
-					seenEdge = true
-				}
-			}
-		case a.isConst(b.Y, a.inside):
-			if len(is.Body.List) == 1 {
-				if as, ok := is.Body.List[0].(*ast.AssignStmt); ok && len(as.Lhs) == 1 && len(as.Rhs) == 1 {
-					tv := objOf(a.info, as.Lhs[0])
-					if tv != nil && a.isToggle(as.Rhs[0], tv) {
-						if status == nil {
-							status = tv
-						}
-						if tv == status {
-							seenToggle = true
-						}
-					}
-				}
-			}
-		}
-		return true
-	})
-	if !seenEdge {
-		set(loop.Pos(), "OnEdge from a member polygon is not returned at once")
-	}
-	if !seenToggle {
-		set(loop.Pos(), "Inside from a member polygon does not toggle the running status (even-odd over members)")
-	}
-	ast.Inspect(fd.Body, func(n ast.Node) bool {
-		if r, ok := n.(*ast.ReturnStmt); ok && len(r.Results) == 1 {
-			o := objOf(a.info, r.Results[0])
-			if o != status && o != temp && !a.isConst(r.Results[0], a.onEdge) {
-				set(r.Pos(), "returns `"+src(r)+"`")
-			}
-		}
-		return true
-	})
-	if status != nil && !a.startsOutside(fd, sc, status) {
-		set(fd.Pos(), "running status does not start as Outside")
-	}
-	if bad != "" {
-		c.Bad("C02.R2", name, pos, "%s", bad)
-	} else {
-		c.OK("C02.R2", name, fd.Pos(), "all member polygons, OnEdge at once, Inside toggles")
-	}
-}
-
-// boundsOf: e is poly.ringBounds() (or a local assigned from it) for the given polygon variable.
-func (a *c02) boundsOf(sc *fnScope, e ast.Expr, poly types.Object) bool {
-	e = unparen(e)
-	if o := objOf(a.info, e); o != nil {
-		if d := sc.singleDef(o); d != nil {
-			e = unparen(d)
-		}
-	}
-	call, ok := e.(*ast.CallExpr)
-	if !ok || len(call.Args) != 0 {
-		return false
-	}
-	sel, ok := unparen(call.Fun).(*ast.SelectorExpr)
-	if !ok || objOf(a.info, sel.X) != poly {
-		return false
-	}
-	f := callee(a.info, call)
-	return f != nil && a.ringBoundsOK(f) == ""
-}
-
 var c02rbMemo = map[*types.Func]string{}
-
-// ringBoundsOK: method on Polygon returning []*Bounds with out[i] = bounds of ring i.
-func (a *c02) ringBoundsOK(f *types.Func) string {
-	if r, ok := c02rbMemo[f]; ok {
-		return r
-	}
-	res := a.ringBounds1(f)
-	c02rbMemo[f] = res
-	return res
-}
-
-func (a *c02) ringBounds1(f *types.Func) string {
-	fd := a.c.P.Decl(f)
-	if fd == nil {
-		return "no source"
-	}
-	recv := receiverVar(a.info, fd)
-	sc := newFnScope(a.info, fd.Body)
-	e2 := newC04E2(a.c)
-	newBounds := a.c.P.Func("geom", "NewBounds")
-	var out types.Object
-	okLoop := false
-	for _, st := range fd.Body.List {
-		switch s := st.(type) {
-		case *ast.AssignStmt:
-			if call, ok := unparen(s.Rhs[0]).(*ast.CallExpr); ok && builtinName(a.info, call) == "make" && len(call.Args) >= 2 {
-				af := sc.aff(call.Args[1])
-				if !(af.ok && af.K == 0 && af.Of != nil && objOf(a.info, af.Of) == recv) {
-					return "result not allocated with one entry per ring"
-				}
-				out = objOf(a.info, s.Lhs[0])
-			}
-		case *ast.RangeStmt, *ast.ForStmt:
-			l := sc.loopOf(st)
-			if l == nil || !(l.Lo.K == 0 && l.Lo.Of == nil && l.Hi.K == 0 && l.Hi.Of != nil && objOf(a.info, l.Hi.Of) == recv) {
-				return "loop does not cover every ring"
-			}
-			// body: b := NewBounds(); b.join(r); out[i] = b
-			var acc types.Object
-			joined, stored := false, false
-			for _, bs := range l.Body.List {
-				switch x := bs.(type) {
-				case *ast.AssignStmt:
-					if call, ok := unparen(x.Rhs[0]).(*ast.CallExpr); ok && callee(a.info, call) == newBounds {
-						acc = objOf(a.info, x.Lhs[0])
-					} else if ix, ok := unparen(x.Lhs[0]).(*ast.IndexExpr); ok && objOf(a.info, ix.X) == out && l.Idx != nil && objOf(a.info, ix.Index) == l.Idx && objOf(a.info, x.Rhs[0]) == acc && acc != nil {
-						stored = true
-					}
-				case *ast.ExprStmt:
-					if call, ok := unparen(x.X).(*ast.CallExpr); ok && len(call.Args) == 1 {
-						if sel, ok := unparen(call.Fun).(*ast.SelectorExpr); ok && objOf(a.info, sel.X) == acc && acc != nil {
-							if jf := callee(a.info, call); jf != nil && e2.isJoin(jf) == "" {
-								arg := unparen(call.Args[0])
-								if (l.Val != nil && objOf(a.info, arg) == l.Val) || isRecvElem(a.info, arg, recv, l.Idx) {
-									joined = true
-								}
-							}
-						}
-					}
-				}
-			}
-			if !joined || !stored {
-				return "loop body does not store the bounds of ring i at index i"
-			}
-			okLoop = true
-		case *ast.ReturnStmt:
-			if len(s.Results) != 1 || objOf(a.info, s.Results[0]) != out || !okLoop {
-				return "does not return the per-ring bounds"
-			}
-			return ""
-		}
-	}
-	return "shape not recognised"
-}
 
 // ---------------------------------------------------------------- R3
 
@@ -853,154 +259,6 @@ func (a *c02) r3prefilter() {
 }
 
 // ---------------------------------------------------------------- R4
-
-func (a *c02) r4receivers() {
-	c := a.c
-	for _, tn := range []string{"MultiPoint", "LineString", "MultiLineString", "Polygon"} {
-		m := c.P.Method("geom", tn, "Within")
-		fd := c.P.Decl(m)
-		if fd == nil {
-			c.Unk("C02.R4", "geom."+tn+".Within", token.NoPos, "API anchor does not resolve")
-			continue
-		}
-		name := c.P.FuncName(m)
-		recv := receiverVar(a.info, fd)
-		params := paramVars(a.info, fd.Type)
-		poly := params[0]
-		sc := newFnScope(a.info, fd.Body)
-		msg := ""
-		var pos token.Pos = fd.Pos()
-		set := func(p token.Pos, s string) {
-			if msg == "" {
-				msg, pos = s, p
-			}
-		}
-		seenLoop := false
-		for _, st := range fd.Body.List {
-			switch s := st.(type) {
-			case *ast.IfStmt:
-				// reviewed exception table: Polygon.Within returns OnEdge when the operands are deeply equal
-				if !seenLoop && tn == "Polygon" && a.isDeepEqualOnEdge(s, recv, poly) {
-					continue
-				}
-				set(s.Pos(), "unexpected early exit `"+src(s.Cond)+"` before the vertex loop")
-			case *ast.RangeStmt, *ast.ForStmt:
-				l := sc.loopOf(st)
-				if l == nil || !(l.Lo.K == 0 && l.Lo.Of == nil && l.Hi.K == 0 && l.Hi.Of != nil && objOf(a.info, l.Hi.Of) == recv) {
-					set(st.Pos(), "loop does not cover every member/vertex of the receiver")
-					continue
-				}
-				seenLoop = true
-				a.r4body(sc, l, recv, poly, 0, set)
-			case *ast.ReturnStmt:
-				if !seenLoop {
-					set(s.Pos(), "returns before visiting the vertices")
-				}
-				if len(s.Results) != 1 || a.isConst(s.Results[0], a.outside) {
-					set(s.Pos(), "fall-through result must not be Outside")
-				} else if !a.isConst(s.Results[0], a.inside) && !a.isConst(s.Results[0], a.onEdge) {
-					set(s.Pos(), "fall-through result `"+src(s.Results[0])+"` not recognised")
-				}
-			default:
-				set(st.Pos(), "unexpected statement `"+src(st)+"`")
-			}
-		}
-		if !seenLoop {
-			set(fd.Pos(), "no loop over the receiver")
-		}
-		if msg != "" {
-			c.Bad("C02.R4", name, pos, "%s", msg)
-		} else {
-			c.OK("C02.R4", name, fd.Pos(), "every vertex/member visited; Outside exactly when one is Outside")
-		}
-	}
-}
-
-func (a *c02) isDeepEqualOnEdge(s *ast.IfStmt, recv, poly types.Object) bool {
-	call, ok := unparen(s.Cond).(*ast.CallExpr)
-	if !ok || len(call.Args) != 2 || !isFuncIn(callee(a.info, call), "reflect", "DeepEqual") {
-		return false
-	}
-	x, y := objOf(a.info, call.Args[0]), objOf(a.info, call.Args[1])
-	if !((x == recv && y == poly) || (x == poly && y == recv)) {
-		return false
-	}
-	if len(s.Body.List) != 1 || s.Else != nil {
-		return false
-	}
-	r, ok := s.Body.List[0].(*ast.ReturnStmt)
-	return ok && len(r.Results) == 1 && a.isConst(r.Results[0], a.onEdge)
-}
-
-// r4body: the loop body is either `if classify(elem, poly) == Outside { return Outside }`
-// or a nested full-range loop over the element with such a body.
-func (a *c02) r4body(sc *fnScope, l *Loop, recv, poly types.Object, depth int, set func(token.Pos, string)) {
-	brk, cont, _ := earlyExits(l.Body)
-	if len(brk)+len(cont) > 0 {
-		set(l.Stmt.Pos(), "loop has break/continue: some vertices may be skipped")
-	}
-	isElem := func(e ast.Expr) bool {
-		e = unparen(e)
-		if l.Val != nil && objOf(a.info, e) == l.Val {
-			return true
-		}
-		if ix, ok := e.(*ast.IndexExpr); ok && l.Idx != nil && objOf(a.info, ix.Index) == l.Idx && l.Hi.Of != nil && sameExpr(a.info, ix.X, l.Hi.Of) {
-			return true
-		}
-		return false
-	}
-	found := false
-	for _, st := range l.Body.List {
-		switch s := st.(type) {
-		case *ast.IfStmt:
-			b, ok := unparen(s.Cond).(*ast.BinaryExpr)
-			if !ok || b.Op != token.EQL || !a.isConst(b.Y, a.outside) {
-				set(s.Pos(), "unexpected condition `"+src(s.Cond)+"` in the vertex loop")
-				continue
-			}
-			call, ok := unparen(b.X).(*ast.CallExpr)
-			if !ok {
-				set(s.Pos(), "condition does not classify the current element")
-				continue
-			}
-			f := callee(a.info, call)
-			okCall := false
-			if f == a.polyal && len(call.Args) == 2 && isElem(call.Args[0]) && objOf(a.info, call.Args[1]) == poly {
-				okCall = true
-			}
-			if sel, isSel := unparen(call.Fun).(*ast.SelectorExpr); isSel && sel.Sel.Name == "Within" && isElem(sel.X) && len(call.Args) == 1 && objOf(a.info, call.Args[0]) == poly {
-				okCall = true // member method, itself subject to this rule
-			}
-			if !okCall {
-				set(call.Pos(), "`"+src(call)+"` does not classify the current element against the polygon")
-				continue
-			}
-			if len(s.Body.List) != 1 || s.Else != nil {
-				set(s.Pos(), "an Outside vertex must return Outside at once")
-				continue
-			}
-			r, ok := s.Body.List[0].(*ast.ReturnStmt)
-			if !ok || len(r.Results) != 1 || !a.isConst(r.Results[0], a.outside) {
-				set(s.Pos(), "an Outside vertex must return Outside at once")
-				continue
-			}
-			found = true
-		case *ast.RangeStmt, *ast.ForStmt:
-			inner := sc.loopOf(st)
-			if inner == nil || !(inner.Lo.K == 0 && inner.Lo.Of == nil && inner.Hi.K == 0 && inner.Hi.Of != nil && isElem(inner.Hi.Of)) {
-				set(st.Pos(), "inner loop does not cover every vertex of the current member")
-				continue
-			}
-			a.r4body(sc, inner, recv, poly, depth+1, set)
-			found = true
-		default:
-			set(st.Pos(), "unexpected statement `"+src(st)+"` in the vertex loop")
-		}
-	}
-	if !found {
-		set(l.Stmt.Pos(), "loop body does not classify the current element")
-	}
-}
 
 // ---------------------------------------------------------------- R5
 
